@@ -90,7 +90,7 @@ impl Stream for Programs
 	fn run(&self, _idx: u64, c: &mut Choices, ctx: &RunCtx) -> CaseOut
 	{
 		let mut out = CaseOut::default();
-		let prog = progen::generate(c, progen::Profile::exec());
+		let prog = progen::generate(c, progen::Profile::exec_with_inference());
 		let plain = ast::print_program(&prog, Layout::plain(), None);
 		out.key = fnv(&plain);
 		let expected = match interp::Interp::new(&prog).run_main()
